@@ -17,6 +17,7 @@ from typing import Any, Dict, List, Optional, Tuple
 import numpy as np
 
 from mc import choices, qsim, refvm
+from mc.report import guard_harness as _guard
 from mc.report import add_sample, add_violation, count, new_part
 from props.c04 import to_real
 
@@ -284,6 +285,7 @@ def check_program(name, prog, src, part, alloc=(0, 1, 2), inits=("basis", "produ
         try:
             mem, wire = transpile_wire(prog, debug)
         except Exception as exc:
+            _guard(exc)
             fp = f"transpile-raises/{src}/{type(exc).__name__}"
             if src == "load" and isinstance(exc, AssertionError) and any(mn in ("cnot", "cphase") for mn, _ in prog):
                 fp = "two-qubit-gate-on-register-written-by-load/transpiler-asserts"
